@@ -220,9 +220,20 @@ def _run_once(actor_set: list[str], strategy: Any, mode: str) -> tuple[Any, dict
         def __getattr__(self, name: str) -> Any:
             return getattr(self._inner, name)
 
+    class _LoggingRegistryLock(_LoggingLock):
+        """The registry's own lock: an eviction takes effect when the critical section that removed the entry ends."""
+
+        def acquire(self, *a: Any, **k: Any) -> Any:
+            return self._inner.acquire(*a, **k)
+
+        def release(self) -> None:
+            s.log("registry_lock_released")
+            self._inner.release()
+
     for entry in registry._entries.values():
         entry.lock = _LoggingLock(entry.lock)
     registry._entries = _LoggingDict(registry._entries)
+    registry._lock = _LoggingRegistryLock(registry._lock)
 
     def req(method: str, tag: str) -> Any:
         return httpdrv.call(app, "POST", f"/{method}", {**H, "VGI-Session": token}, httpdrv.request_body(method, tag_schema, {"tag": tag}))
@@ -302,12 +313,19 @@ def _judge(chk: Check, actor_set: list[str], mode: str, s: Any, info: dict[str, 
     in_close = False
     chk.hit("events_logged", len(s.events))
     evicted_at: int | None = None
+    pending_evict: str | None = None
     last_lock_acq: dict[str, int] = {}
     for idx, ev in enumerate(s.events):
         actor, kind = ev[0], ev[1]
         who = actor.rstrip("0123456789")
         if kind == "evicted":
-            if evicted_at is None:
+            if pending_evict is None and evicted_at is None:
+                pending_evict = actor
+            continue
+        if kind == "registry_lock_released":
+            # the removal is in effect once the critical section that performed it has ended; a request that reads
+            # the session's state between the removal and that point linearizes before the eviction
+            if pending_evict == actor and evicted_at is None:
                 evicted_at = idx
             continue
         if kind == "session_lock_acquired":
